@@ -3,9 +3,11 @@
   regenerated from /repo's bit_matrix.go on every run (`Gzx.Gen.K16b`) and proved equal to the word model `WMat.*` of
   Model/Bits.lean.  Conventions and the renderers' methods (Set/Unset/Flip/SetRegion/Clear): Obligations/K16b.lean.
 -/
-import Gzx.Obligations.K16b
+import Gzx.Gen.K16b
+import Gzx.KernelGuard
+import Gzx.Proofs.GoMTie
 namespace Gzx.Obligations.K16bMat
-open Gzx Gzx.GoM Gzx.Bits Gzx.GoVal Gzx.Obligations.K16b
+open Gzx Gzx.GoM Gzx.Bits Gzx.GoVal
 
 when_kernel Gzx.Gen.K16b.matrixXor in
 /-- `BitMatrix.Xor(mask)` = `WMat.xor`: dimension check (error, unchanged), then word by word
